@@ -1,6 +1,7 @@
 package modes
 
 import (
+	"net"
 	"context"
 	"encoding/json"
 	"fmt"
@@ -65,6 +66,17 @@ func c17Run(e *Env, c *c17Case) error {
 		mu.Unlock()
 		return sid, ok1 && ok2 && ok3
 	}
+	// the honest clients' envelopes carry an id and a payload only: a delegation node, a destination or
+	// metadata in what a handler is given came from somewhere else (another connection)
+	var foreignData []string
+	foreign := func(kind string, env *lime.Envelope) {
+		if !env.PP.IsComplete() && env.PP.Name == "" && env.To.Name == "" && len(env.Metadata) == 0 {
+			return
+		}
+		mu.Lock()
+		foreignData = append(foreignData, fmt.Sprintf("%s %s: pp=%v to=%v metadata=%v", kind, env.ID, env.PP, env.To, env.Metadata))
+		mu.Unlock()
+	}
 	inprocAddr := lime.InProcessAddr(fmt.Sprintf("c17-%d", run))
 	tcpAddr, err := freePort()
 	if err != nil {
@@ -95,6 +107,7 @@ func c17Run(e *Env, c *c17Case) error {
 			mu.Unlock()
 		}).
 		MessagesHandlerFunc(func(ctx context.Context, m *lime.Message, s lime.Sender) error {
+			foreign("msg", &m.Envelope)
 			sid, _ := record(ctx, "msg", m.ID)
 			r := &lime.Message{}
 			r.ID = "reply-" + m.ID
@@ -102,10 +115,12 @@ func c17Run(e *Env, c *c17Case) error {
 			return s.SendMessage(ctx, r)
 		}).
 		NotificationsHandlerFunc(func(ctx context.Context, n *lime.Notification) error {
+			foreign("ntf", &n.Envelope)
 			record(ctx, "ntf", n.ID)
 			return nil
 		}).
 		RequestCommandsHandlerFunc(func(ctx context.Context, r *lime.RequestCommand, s lime.Sender) error {
+			foreign("req", &r.Envelope)
 			sid, _ := record(ctx, "req", r.ID)
 			resp := r.SuccessResponse()
 			resp.SetMetadataKeyValue("sid", sid)
@@ -143,6 +158,34 @@ func c17Run(e *Env, c *c17Case) error {
 		err       string
 	}
 	res := make([]cliRes, c.Clients)
+	// intruders: connections that never authenticate send one well-formed JSON value that the transport
+	// refuses after having read its members, again and again while the sessions are busy
+	stopIntruders := make(chan struct{})
+	var iwg sync.WaitGroup
+	for i := 0; i < 2; i++ {
+		iwg.Add(1)
+		go func(i int) {
+			defer iwg.Done()
+			for n := 0; ; n++ {
+				select {
+				case <-stopIntruders:
+					return
+				default:
+				}
+				conn, err := net.DialTimeout("tcp", tcpAddr.String(), time.Second)
+				if err != nil {
+					time.Sleep(2 * time.Millisecond)
+					continue
+				}
+				fmt.Fprintf(conn, `{"id":5,"pp":"intruder%d@evil.org/x","to":"victim@evil.org/y","metadata":{"forged":"yes"},"state":"new"}`+"\n", i)
+				conn.SetReadDeadline(time.Now().Add(200 * time.Millisecond))
+				buf := make([]byte, 512)
+				conn.Read(buf)
+				conn.Close()
+				time.Sleep(time.Millisecond)
+			}
+		}(i)
+	}
 	var wg sync.WaitGroup
 	for k := 0; k < c.Clients; k++ {
 		wg.Add(1)
@@ -241,6 +284,8 @@ func c17Run(e *Env, c *c17Case) error {
 		}(k)
 	}
 	wg.Wait()
+	close(stopIntruders)
+	iwg.Wait()
 	_ = srv.Close()
 	select {
 	case <-serveDone:
@@ -251,6 +296,9 @@ func c17Run(e *Env, c *c17Case) error {
 	info := map[string]interface{}{"case": c}
 	e.Rep.Count(fmt.Sprintf("node pool smaller than the number of clients=%v", c.NodePool < c.Clients))
 	// the statement
+	if len(foreignData) > 0 {
+		e.Rep.Violate("impl", "c17-foreign-data", fmt.Sprintf("%d envelope(s) were handed to handlers with members no client of the session sent, first: %s", len(foreignData), foreignData[0]), info)
+	}
 	seenID := map[string]int{}
 	for k := range res {
 		if res[k].err != "" {
